@@ -61,7 +61,7 @@ class Gen:
         if x < 0.72:
             return ("arr", self.small_type(depth + 1), r.randint(1, 3))
         if x < 0.86:
-            return ("tup", [self.small_type(depth + 1) for _ in range(r.randint(2, 3))])
+            return ("tup", [self.small_type(depth + 1) for _ in range(r.choice([2, 2, 3, 3, 4, 5]))])
         if x < 0.93 and self.structs:
             return ("struct", r.choice(sorted(self.structs)))
         if self.enums:
@@ -418,6 +418,11 @@ class Gen:
                         out.append("%s = %s;" % (txt, self.rhs(t, env, d)))
             elif x < 0.82 and d > 0:
                 c = paren(self.expr("bool", env, d - 1))
+                muts = [(n, t) for (n, t, m) in env if m and (t == "bool" or is_int(t))]
+                if muts and r.random() < 0.2:
+                    # a condition with an effect: the assignment must be visible in both branches and afterwards
+                    mn, mt = r.choice(muts)
+                    c = "{ %s = %s; %s }" % (mn, self.expr(mt, env, 1), self.expr("bool", env, d - 1))
                 a, _ = self.stmts(env, r.randint(1, 2), d - 1)
                 if r.random() < 0.6:
                     b, _ = self.stmts(env, r.randint(1, 2), d - 1)
@@ -447,8 +452,60 @@ class Gen:
             env.append((name, "bool", False))
         return " ".join(out), env
 
+    # ------------------------------------------------------------- bit soup (builder rewrites at source level)
+    def bitsoup_expr(self, t, env, d):
+        """xor / and / or / not over few variables with heavy reuse: every peephole rule of the gate builder
+        (x ^ !x, (a & b) ^ (a & c), x & (y ^ z), double negation, both operand orders) is hit at source level"""
+        r = self.rng
+        if isinstance(t, tuple):
+            return "(" + ", ".join(self.bitsoup_expr(x, env, d) for x in t[1]) + ")"
+        vs = self.vars_of(env, t)
+        if d <= 0 or r.random() < 0.15:
+            v = r.choice(vs)
+            return "(!%s)" % v if r.random() < 0.25 else v
+        x = r.random()
+        if x < 0.2:
+            return "(!%s)" % self.bitsoup_expr(t, env, d - 1)
+        a = self.bitsoup_expr(t, env, d - 1)
+        b = self.bitsoup_expr(t, env, d - 1)
+        y = r.random()
+        if y < 0.15:
+            b = a                                   # same operand twice
+        elif y < 0.3:
+            b = "(!%s)" % a                         # operand and its negation
+        op = r.choice(["^", "^", "^", "&", "&", "|"])
+        return "(%s %s %s)" % ((a, op, b) if r.random() < 0.5 else (b, op, a))
+
+    def bitsoup_stmts(self, env):
+        r = self.rng
+        env = list(env)
+        t = env[0][1]
+        out = []
+        for _ in range(r.randint(1, 4)):
+            name = self.fresh()
+            out.append("let %s: %s = %s;" % (name, tstr(t), self.bitsoup_expr(t, env, r.randint(1, 3))))
+            env.append((name, t, False))
+        return " ".join(out), env
+
+    @staticmethod
+    def layout(rng, text):
+        """the same token sequence over several lines (panic locations get distinct start and end lines)"""
+        out = []
+        depth = 0
+        for i, ch in enumerate(text):
+            out.append(ch)
+            if ch in ";{,(" and rng.random() < 0.25 and text[i + 1:i + 2] == " ":
+                out.append("\n" + " " * rng.randint(0, 8))
+        return "".join(out)
+
     # ------------------------------------------------------------- program
     def program(self):
+        txt = self.program_one_line()
+        if self.rng.random() < 0.5:
+            txt = self.layout(self.rng, txt)
+        return txt
+
+    def program_one_line(self):
         r = self.rng
         self.make_defs()
         for i in range(r.randint(0, 2)):
@@ -470,14 +527,24 @@ class Gen:
         nparams = r.randint(1, 3)
         self.counter = 0
         ps = [("a%d" % k, self.small_type(0 if r.random() < 0.5 else 1)) for k in range(nparams)]
+        if self.style == "bitsoup":
+            bt = r.choice(["bool", "u8", "u8", "u16", "i8"])
+            ps = [("a%d" % k, bt) for k in range(r.randint(2, 4))]
         if len(ps) == 1 and isinstance(ps[0][1], tuple) and ps[0][1][0] == "arr" and r.random() < 0.5:
             ps.append(("a1", "u8"))
         self.counter = len(ps)
         ret = self.small_type()
-        env = [(n, t, False) for n, t in ps]
-        body, env2 = self.stmts(env, r.randint(1, 4), self.max_depth)
+        if self.style == "bitsoup":
+            ret = ("tup", [bt, bt]) if r.random() < 0.5 else bt
+        main_muts = [r.random() < (0.5 if self.style == "mutation" else 0.2) for _ in ps]
+        env = [(n, t, m) for (n, t), m in zip(ps, main_muts)]
+        if self.style == "bitsoup":
+            body, env2 = self.bitsoup_stmts(env)
+        else:
+            body, env2 = self.stmts(env, r.randint(1, 4), self.max_depth)
         main = "pub fn main(%s) -> %s { %s %s }" % (
-            ", ".join("%s: %s" % (n, tstr(t)) for n, t in ps), tstr(ret), body, self.expr(ret, env2, self.max_depth))
+            ", ".join("%s%s: %s" % ("mut " if m else "", n, tstr(t)) for (n, t), m in zip(ps, main_muts)), tstr(ret), body,
+            self.bitsoup_expr(ret, env2, 3) if self.style == "bitsoup" else self.expr(ret, env2, self.max_depth))
         defs = []
         for n, fs in sorted(self.structs.items()):
             defs.append("struct %s { %s }" % (n, ", ".join("%s: %s" % (f, tstr(t)) for f, t in fs)))
